@@ -385,6 +385,13 @@ def check_config(ctx, F, tag, cfg):
     c01.check_config(Relabel(ctx, {"C01.R3.cached-count": "C08.R8.cached-count", "C01.R4.select-store-read-agreement": "C08.R8.select-store-read-agreement"}), F, tag)
     if cfg in ("native", "native-rel"):
         c18.check_config(Relabel(ctx, {"C18.R1.": "C08.R8.mmap."}), F, tag)
+    # (borrowed) the byte views the blanket Serialize impls build over a value, and the buffer Vec::load reads into, cover exactly
+    # the value: size_of::<Self>() bytes of `self`, `size` items of a vector allocated for `size` items (C06.R2) -- one byte more
+    # is a read or write past the object
+    import c06
+    c06.check_config(Relabel(ctx, {"C06.R2.basic.serializable-body": "C08.R9.byte-view-covers-exactly-the-value",
+                                   "C06.R2.basic.serializable-load": "C08.R9.byte-view-covers-exactly-the-loaded-value",
+                                   "C06.R2.basic.vec-load": "C08.R9.vector-buffer-holds-what-is-read"}), F, tag)
     return sites
 
 
